@@ -1,4 +1,5 @@
 #!/bin/bash
+ROOT=$(cd "$(dirname "$0")/.." && pwd)
 # run every registered check with several seeds on the unchanged tree; print anything that is not exit 0
 # usage: tools/sweep.sh [--tier thorough] seed...
 tier=quick
@@ -6,5 +7,5 @@ if [ "$1" == "--tier" ]; then tier=$2; shift 2; fi
 out=$(mktemp -d /tmp/sweep_XXXX)
 for sd in "$@"; do
   for pid in C01 C02 C03 C04 C06 C07 C08 C09 C10 C12 C13 C14 C15 C16 C17 C19 C05; do echo "$sd $pid"; done
-done | xargs -P 4 -L 1 bash -c 'sd=$0; pid=$1; o=$(VERIF_SEED=$sd VERIF_OUT='$out'/$sd /verif/check $pid --tier '$tier' 2>&1); rc=$?; if [ $rc -ne 0 ]; then echo "seed=$sd $pid exit=$rc"; echo "$o" | grep -E "VIOLATION|CHECKER|Error|error" | head -5 | cut -c1-400; fi'
+done | xargs -P 4 -L 1 bash -c 'sd=$0; pid=$1; o=$(VERIF_SEED=$sd VERIF_OUT='$out'/$sd '$ROOT'/check $pid --tier '$tier' 2>&1); rc=$?; if [ $rc -ne 0 ]; then echo "seed=$sd $pid exit=$rc"; echo "$o" | grep -E "VIOLATION|CHECKER|Error|error" | head -5 | cut -c1-400; fi'
 echo "sweep-done (evidence/replays under $out)"
